@@ -11,25 +11,27 @@ import (
 var errVhStub = errors.New("vh: scripted transport error")
 
 type vhTransport struct {
-	sent      []envelope
-	encAtSend []SessionEncryption
-	calls     []string
-	closed    bool
-	enc       SessionEncryption
-	comp      SessionCompression
-	supEnc    []SessionEncryption
-	supComp   []SessionCompression
-	step      int
-	depth     int
-	rx        func(t *vhTransport) (envelope, error)
-	lastRx    *Session
-	sendFails bool
-	setFails  bool
-	rxErrs    int
-	rxAliens  int
-	down      bool       // the peer vanished and the transport noticed (Connected() turns false)
-	rxLog     []*Session // every session envelope received, in order
-	sentAtRx  []int      // number of envelopes sent when each was received
+	sent       []envelope
+	encAtSend  []SessionEncryption
+	calls      []string
+	closed     bool
+	enc        SessionEncryption
+	comp       SessionCompression
+	supEnc     []SessionEncryption
+	supComp    []SessionCompression
+	step       int
+	depth      int
+	rx         func(t *vhTransport) (envelope, error)
+	lastRx     *Session
+	sendFails  bool
+	setFails   bool
+	rxErrs     int
+	rxAliens   int
+	down       bool                // the peer vanished and the transport noticed (Connected() turns false)
+	encAtRecv  []SessionEncryption // options in force when each Receive was called
+	compAtRecv []SessionCompression
+	rxLog      []*Session // every session envelope received, in order
+	sentAtRx   []int      // number of envelopes sent when each was received
 }
 
 func (t *vhTransport) Send(_ context.Context, e envelope) error {
@@ -52,6 +54,8 @@ func (t *vhTransport) Send(_ context.Context, e envelope) error {
 
 func (t *vhTransport) Receive(_ context.Context) (envelope, error) {
 	t.calls = append(t.calls, "recv")
+	t.encAtRecv = append(t.encAtRecv, t.enc)
+	t.compAtRecv = append(t.compAtRecv, t.comp)
 	if t.closed {
 		return nil, errVhStub
 	}
@@ -596,7 +600,6 @@ func HarnessC10Server() {
 		}
 	}
 	vAssume(can)
-	vAssume(env.sane())
 	_ = env.establish()
 	t := env.t
 	vReach("c10:handshake-returned")
